@@ -72,8 +72,8 @@ def resample [LT P] [DecidableRel (α := P) (· < ·)] (idx : List P) (a : V) (s
 
 /-- the general two-operand path of `ops/common.py`: union of the step points, both value series
 conformed to it, element-wise operator. -/
-def combineSteps [LT P] [DecidableRel (α := P) (· < ·)] (op : V → V → W)
-    (a : V) (f : List (P × V)) (b : V) (g : List (P × V)) : List (P × W) :=
+def combineSteps {V' : Type} [LT P] [DecidableRel (α := P) (· < ·)] (op : V → V' → W)
+    (a : V) (f : List (P × V)) (b : V') (g : List (P × V')) : List (P × W) :=
   (unionIdx (f.map Prod.fst) (g.map Prod.fst)).map
     fun p => (p, op (lim false a f p) (lim false b g p))
 
@@ -84,7 +84,7 @@ structure Stairs (P : Type) where
   init : Val
   steps : List (P × Val)
   closed : Side
-  deriving Repr
+  deriving Repr, DecidableEq
 
 namespace Stairs
 variable {P : Type}
